@@ -10,8 +10,8 @@ FILES = ["src/reuse/header.py", "src/reuse/comment.py", "src/reuse/extract.py", 
 
 def replay(w):
     try:
-        once = hc.annotate_real(w["text"], w["style"], w["multi"])
-        twice = hc.annotate_real(once, w["style"], w["multi"])
+        once = hc.annotate_real(w["text"], w["style"], w["multi"], request=w.get("request", "full"))
+        twice = hc.annotate_real(once, w["style"], w["multi"], request=w.get("request", "full"))
     except Exception:  # noqa
         return True
     return once != twice
@@ -24,6 +24,12 @@ def run(ctx):
         return {"level": "model_checking"}
     carve = sorted(ctx.known)
     conds = hc.conditions("_idem", ctx.tier, carve)
+    # requests that carry only one kind of information (a header holding only contributors must be found again too)
+    for name, multi in (("PythonCommentStyle", False), ("CCommentStyle", True), ("HtmlCommentStyle", True), ("LispCommentStyle", False)):
+        for req in ("contributor-only", "licence-only", "copyright-only"):
+            conds.append(xh.Cond(f"idem {name} multi={multi} request={req} body=2 lines", "HDR.py", "_idem", {"style": name, "multi": multi, "replace": True, "nlines": 2, "request": req, "carve": carve}, timeout=400 if ctx.tier == "quick" else 2000, twin="_idem_reach"))
+    for name, multi in (("PythonCommentStyle", False), ("CCommentStyle", True), ("HtmlCommentStyle", True)):
+        conds.append(xh.Cond(f"idem {name} multi={multi}: an existing header of more than 4 KiB (80 holders) is found again", "HDR.py", "_idem", {"style": name, "multi": multi, "replace": True, "nlines": 2, "kinds": [2, 8, 10], "first": 10, "carve": carve}, timeout=400 if ctx.tier == "quick" else 2000, twin="_idem_reach"))
     ctx.functions_encoded = ["reuse.header.find_and_replace_header, create_header, _create_new_header, _find_first_spdx_comment, _indices_of_newlines, _extract_shebang, place_header", "reuse.comment.CommentStyle.comment_at_first_character / create_comment (every style)", "reuse.extract.contains_reuse_info / extract_reuse_info"]
     ctx.bounds = dict(hc.BOUNDS)
     ctx.stubs = hc.STUBS
@@ -31,7 +37,7 @@ def run(ctx):
     ctx.assumptions = [f"PYRE == re on {n} comparisons this run", "after the solver fixes the body shape the text is concrete: the solver contributes exhaustive exploration of the shape space"]
 
     def confirm(c, ex):
-        w = {"text": ex["text"], "style": ex["style"], "multi": ex["multi"]}
+        w = {"text": ex["text"], "style": ex["style"], "multi": ex["multi"], "request": ex.get("request", "full")}
         if not replay(w):
             return None
         key = ex.get("known_key") or f"idem:{ex['style']}:{ex['multi']}:{ex['body']}"
